@@ -40,7 +40,7 @@ var verifNsxSpoc = `{"groups":[` + verifNsxGroup("Netspoc-g2", `"10.1.1.10","10.
 
 type verifNsxSim struct {
 	faultPos  int
-	faultKind int // 1 status 500 + text, 2 invalid JSON (GET only), 3 status 400 + JSON error, 4 transport error, 5 status 403 at login
+	faultKind int // 1 status 500 + text, 2 invalid JSON (GET only), 3 status 400 + JSON error, 4 transport error, 5 status 403, 6 reply cut off inside the body
 	failKey   string
 	reqs      []string // "METHOD uri"
 	bodies    []string
@@ -77,6 +77,9 @@ func (s *verifNsxSim) respond(method, uri, body string) (int, string, string, st
 			return 0, "", "", "EOF"
 		case 5:
 			return 403, "forbidden", "", ""
+		case 6:
+			// status 200 and headers arrive, the connection drops inside the body
+			return 200, `{"id": `, "", "BODY:unexpected EOF"
 		}
 	}
 	switch {
@@ -137,6 +140,13 @@ func verifRunNsx(sim *verifNsxSim, isCompare bool, withLog bool) *verifNsxRun {
 		srv := httptest.NewTLSServer(http.HandlerFunc(func(w http.ResponseWriter, req *http.Request) {
 			body, _ := io.ReadAll(req.Body)
 			status, rbody, hdr, terr := sim.respond(req.Method, req.RequestURI, string(body))
+			if strings.HasPrefix(terr, "BODY:") {
+				// declare more than is sent: the server drops the connection
+				w.Header().Set("Content-Length", "64")
+				w.WriteHeader(status)
+				w.Write([]byte(rbody))
+				return
+			}
 			if terr != "" {
 				if hj, ok := w.(http.Hijacker); ok {
 					c, _, _ := hj.Hijack()
@@ -167,7 +177,7 @@ func verifNsxIsWrite(req string) bool {
 
 func VerifDialogueNSX() {
 	isCompare := vf.Param("mode", "approve") == "compare"
-	vf.Assumption("NSX policy API simulator: session create (token in header x-xsrf-token), policy list and per-policy GET, paged service list, group list with objects with and without the Netspoc prefix; every write request answers 200; faults: status 500 with text, invalid JSON, status 400 with JSON error, transport error (connection closed, persists for net/http's retry), status 403")
+	vf.Assumption("NSX policy API simulator: session create (token in header x-xsrf-token), policy list and per-policy GET, paged service list, group list with objects with and without the Netspoc prefix; every write request answers 200; faults: status 500 with text, invalid JSON, status 400 with JSON error, transport error (connection closed, persists for net/http's retry), status 403, reply cut off inside the body (status 200, short body)")
 	// reference: what a compare of this device reports (fault-free)
 	ref := &verifNsxSim{faultPos: -1}
 	rr := verifRunNsx(ref, true, true)
@@ -188,11 +198,15 @@ func VerifDialogueNSX() {
 
 	sim := &verifNsxSim{}
 	sim.faultPos = vf.FixInt(vf.Int("faultPos", -1, 14))
-	sim.faultKind = vf.FixInt(vf.Int("faultKind", 1, 5))
+	sim.faultKind = vf.FixInt(vf.Int("faultKind", 1, 6))
 	withLog := !vf.Bool("run without log directory")
 	r := verifRunNsx(sim, isCompare, withLog)
 	vf.Note("rc=", r.rc, "requests:", strings.Join(sim.reqs, " | "), "stderr:", r.stderr)
 	reached := sim.faultPos >= 0 && sim.faultPos < len(sim.reqs)
+	if reached && sim.faultKind == 6 && sim.reqs[sim.faultPos] == "POST /api/session/create" {
+		// the login only needs status and headers; a cut body is no failure there
+		reached = false
+	}
 	if reached {
 		vf.Cover("fault reached")
 	}
